@@ -125,6 +125,16 @@ func reasonOfRaw(a Atom, be *BigEval) (kind, text string) {
 			}
 			return "guard", fmt.Sprintf("%s|%s|%s|%s", subj, g.Kind, rel, b.String())
 		}
+		// a size test on an integer object in canonical strictness (x > b is x >= b+1, x <= b is x < b+1), so that
+		// `x > 2^k - 1` and `x >= 2^k` are one reason; the bound itself is the business of the size rules (C01.c, ...)
+		if g.Kind == "big" && !swapped {
+			switch rel {
+			case ">":
+				rel = ">="
+			case "<=":
+				rel = "<"
+			}
+		}
 		return "guard", fmt.Sprintf("%s|%s|%s", subj, g.Kind, rel)
 	}
 	if c, _ := callAndResult(a.V); c != nil {
@@ -331,6 +341,31 @@ func collectRejections(P *Program, fn *ssa.Function, depth int, seenFn map[strin
 				bindCall(sc, g, func() { n += collectRejections(P, g, depth+1, seenFn, out) })
 				delete(rejectFoundMode, g)
 				return
+			}
+		}
+		// `slices.Contains(list, nil)` over a list of known elements (the arguments of a variadic presence check): one
+		// missing-component reason per element
+		if c, _ := callAndResult(a.V); c != nil && a.Want == True && calleeName(c) == "slices.Contains" && len(callArgs(c)) == 2 && isNilConst(callArgs(c)[1]) {
+			lst := callArgs(c)[0]
+			if p, isP := lst.(*ssa.Parameter); isP {
+				if b, ok := paramBindV[p]; ok && b != nil {
+					lst = b
+				}
+			}
+			if seq, ok := seqOf(lst); ok && len(seq) > 0 {
+				all := true
+				for _, e := range seq {
+					if e.Kind != "elem" || e.V == nil {
+						all = false
+					}
+				}
+				if all {
+					for _, e := range seq {
+						n++
+						*out = append(*out, rejReason{"nil", canonReason(desc(e.V)), "[" + desc(e.V) + " is nil]", pos, FuncKey(fn)})
+					}
+					return
+				}
 			}
 		}
 		n++
